@@ -131,6 +131,25 @@ where
     a: Option<Read<'a, A>>,
 }
 
+/// two instantiations of ONE generic derived struct in one run: what the first one declares must not leak into the second
+pub fn f_derive_two_instantiations() {
+    type G1 = Gen<'static, (Write<'static, B>,)>;
+    type G2 = Gen<'static, (Write<'static, C>,)>;
+    let (ia, ib, ic) = (ResourceId::new::<A>(), ResourceId::new::<B>(), ResourceId::new::<C>());
+    let (r1, w1) = (<G1 as SystemData>::reads(), <G1 as SystemData>::writes());
+    let (r2, w2) = (<G2 as SystemData>::reads(), <G2 as SystemData>::writes());
+    assert!(has(&w1, &ib) && !has(&w1, &ic) && has(&r1, &ia), "C06: a generic derived struct declares something else than its members (first instantiation)");
+    assert!(has(&w2, &ic) && !has(&w2, &ib) && has(&r2, &ia), "C06: a generic derived struct declares something else than its members (second instantiation answers like the first)");
+    let w: &'static World = Box::leak(Box::new(world(true, true, true)));
+    {
+        let d = <G2 as SystemData>::fetch(w);
+        assert!(state(w, ic.clone()) == expected(true, &r2, &w2, &ic), "C06: after fetch the borrow state of a resource is not what reads()/writes() declare (C)");
+        assert!(state(w, ib.clone()) == expected(true, &r2, &w2, &ib), "C06: after fetch the borrow state of a resource is not what reads()/writes() declare (B)");
+        drop(d);
+    }
+    witness!(true, "W: two instantiations checked");
+}
+
 fetch_case!(f_derive_generic, Gen<'static, (Write<'static, B>, Read<'static, C>)>, |pa, pb, pc| pb && pc);
 // the same through World::system_data (what `World::exec` and user code call)
 fetch_case!(f_system_data, (Read<'static, A>, Option<Write<'static, C>>), |pa, pb, pc| pa, |w| w.system_data::<(Read<'static, A>, Option<Write<'static, C>>)>());
@@ -152,13 +171,18 @@ fetch_case!(f_derive_tuple, Tup<'static>, |pa, pb, pc| pa);
 fetch_case!(f_derive_nested, Nest<'static>, |pa, pb, pc| pa && pb);
 
 macro_rules! data_instances {
-    ($( $name:ident : $f:ident, $pa:expr, $pb:expr, $pc:expr, $unw:expr );* $(;)?) => {
+    ($( $name:ident : $f:ident, $pa:expr, $pb:expr, $pc:expr, $unw:expr );* ; @plain $( $pname:ident : $pf:ident, $punw:expr );* $(;)?) => {
         $(
             #[cfg_attr(kani, kani::proof)]
             #[cfg_attr(kani, kani::unwind($unw))]
             pub fn $name() { $f($pa, $pb, $pc) }
         )*
-        pub const INSTANCES: &[(&str, fn())] = &[ $( (stringify!($name), $name as fn()) ),* ];
+        $(
+            #[cfg_attr(kani, kani::proof)]
+            #[cfg_attr(kani, kani::unwind($punw))]
+            pub fn $pname() { $pf() }
+        )*
+        pub const INSTANCES: &[(&str, fn())] = &[ $( (stringify!($name), $name as fn()), )* $( (stringify!($pname), $pname as fn()), )* ];
     };
 }
 
